@@ -339,7 +339,13 @@ impl<'c, C: Channel> Context<'c, C> {
             p_own,
             p_max,
             p_out,
-            num_and_ops: circ.and_ops,
+            // Count the AND instructions instead of trusting `circ.and_ops`: sizes of allocations
+            // and of protocol batches are derived from this number.
+            num_and_ops: circ
+                .insts
+                .iter()
+                .filter(|inst| matches!(inst.op, Op::And(_)))
+                .count(),
             num_inputs,
             tmp_dir,
         }
